@@ -45,6 +45,10 @@ static const char *K_RAW = "C09-vector-raw-dump";
 //  ... and for scalars the byte count size()*sizeof(T) goes through
 //  do_data(const char*, uint16_t) and is cut to 16 bits.
 static const char *K_U16 = "C09-vector-bytes-u16";
+//  An empty, never-allocated vector has data() == nullptr, which the raw dump hands to
+//  binary_buffer_writer::dump_data -> memcpy(ptr, nullptr, 0): formally undefined (UBSan
+//  nonnull-attribute), harmless in practice.
+static const char *K_NULL = "C09-binwriter-null-memcpy";
 
 static bool archive_known_skip(Case &c, const Scan &sc)
 {
@@ -137,6 +141,11 @@ template <class T> static void run_type(Src &s, Case &c, const char *tname)
              "%s value %s: serialize gives %zu bytes %s, the documented layout is %zu bytes %s", tname,
              show(b).c_str(), eb.size(), hexs(eb).c_str(), tv.rb.size(), hexs(tv.rb).c_str());
     // fixed-buffer writer: same bytes, ends exactly at the end of an exactly-sized block
+    Scan sa;
+    scan(a, sa);
+    if (sa.null_data_vec && known_active(K_NULL))
+        c.known_hit(K_NULL);
+    else
     {
         Exact out(ea.size());
         igris::archive::binary_buffer_writer w(out.c(), out.n);
